@@ -15,6 +15,19 @@
 //! Writes `<outdir>/block-<kind>.cases` (with `only_index`: `<outdir>/block-<kind>-<index>.cases`,
 //! so a replay never overwrites the file of the full run) and prints one JSON line on stdout.
 //! A case is reproducible from (seed, index): one `rng.fork()` per case index.
+//!
+//! Verdicts per case line: `OK`, `OK known_difference contracts_empty_code_only_in_oracle(<runs>)`
+//! (the only difference is that the oracle's `bundle.contracts` holds KECCAK_EMPTY -> empty code and
+//! grevm's does not; counted separately in the JSON, see `cmp_contracts`), or
+//! `MISMATCH <run> [class] <first difference of every differing section> || <next run> ...`.
+//!
+//! Environment (aids, all optional):
+//!   FLATBLOCK_RUN_TIMEOUT_S=<n>   deadline per grevm run (default 20); on expiry the case is a
+//!                                 MISMATCH `[hang]`, the summary is printed and the process exits 0
+//!   FLATBLOCK_DUMP=1              full outcomes + bundles on stderr (oracle, and any differing run)
+//!   FLATBLOCK_KEEP=0,3,5          with only_index: keep only these tx indices (minimisation)
+//!   FLATBLOCK_NONCE0_STORAGE=1    kind code: storage-carrying authorities get nonce 0 (a state stock
+//!                                 revm itself treats inconsistently; see `gen_code`)
 
 use std::{
     collections::{BTreeMap, BTreeSet},
@@ -231,9 +244,12 @@ fn panic_message(p: Box<dyn std::any::Any + Send>) -> String {
     }
 }
 
-/// Run grevm's Scheduler on its own thread; a panic is caught and reported, a hang is reported
-/// after `HANG_SECS` (the stuck thread is leaked).
-const HANG_SECS: u64 = 30;
+/// Run grevm's Scheduler on a helper thread with a deadline (`FLATBLOCK_RUN_TIMEOUT_S`, default
+/// 20 s). A panic is caught and reported. On expiry the run is reported as a hang; the stuck
+/// scheduler threads cannot be joined, so the driver then writes its summary and exits.
+fn run_timeout_secs() -> u64 {
+    std::env::var("FLATBLOCK_RUN_TIMEOUT_S").ok().and_then(|v| v.parse().ok()).unwrap_or(20)
+}
 fn run_grevm(
     db: DelayDb,
     cfg: CfgEnv,
@@ -263,9 +279,10 @@ fn run_grevm(
             Err(p) => Err(format!("[panic] panicked: {}", panic_message(p))),
         });
     });
-    match recv.recv_timeout(Duration::from_secs(HANG_SECS)) {
+    let secs = run_timeout_secs();
+    match recv.recv_timeout(Duration::from_secs(secs)) {
         Ok(v) => v,
-        Err(_) => Err(format!("[hang] no result within {HANG_SECS}s")),
+        Err(_) => Err(format!("[hang] hang: scheduler did not finish within {secs} s")),
     }
 }
 
@@ -291,6 +308,8 @@ fn cmp_outcomes(exp: &[TxExecutionOutcome], act: &[TxExecutionOutcome]) -> Resul
     Ok(())
 }
 
+const KNOWN_EMPTY_CODE: &str = "[known:contracts_empty_code_only_in_oracle]";
+
 /// `bundle.contracts`: same key set (and the same bytes under each key).
 fn cmp_contracts(exp: &BundleState, act: &BundleState) -> Result<(), String> {
     let ec: BTreeSet<&B256> = exp.contracts.keys().collect();
@@ -298,6 +317,20 @@ fn cmp_contracts(exp: &BundleState, act: &BundleState) -> Result<(), String> {
     if ec != ac {
         let only_o: Vec<_> = ec.difference(&ac).collect();
         let only_g: Vec<_> = ac.difference(&ec).collect();
+        if only_g.is_empty() && only_o.len() == 1 && **only_o[0] == KECCAK_EMPTY {
+            // KNOWN DIFFERENCE (not part of C08/C09): stock revm keeps `code: Some(empty)` on an
+            // account it materialised earlier in the block, so the merged transition registers
+            // contracts[KECCAK_EMPTY] = empty bytecode; grevm's multi-version memory hands later
+            // transactions `code: None`, and when the last writer never loads the code (e.g. the
+            // account is only a SELFDESTRUCT heir / inner value recipient) the entry is absent.
+            // All other keys and all bytes must still agree.
+            for (h, code) in act.contracts.iter() {
+                if code.original_bytes() != exp.contracts[h].original_bytes() {
+                    return Err(format!("[contracts_bytes] bundle.contracts[{h}] bytes differ"));
+                }
+            }
+            return Err(KNOWN_EMPTY_CODE.to_owned());
+        }
         return Err(format!(
             "[contracts_keys] bundle.contracts keys: only-oracle {} only-grevm {}",
             short(&only_o),
@@ -452,7 +485,10 @@ fn cmp_sizes(exp: &BundleState, act: &BundleState) -> Result<(), String> {
 /// Strict comparison of one grevm run against the oracle. Every section is checked (none masks
 /// another); the message lists the first difference of each differing section, each prefixed by
 /// its `[class]`.
-fn cmp_run(exp: &RunOutput, act: &RunOutput) -> Result<(), String> {
+///
+/// `Ok(true)` means: identical except for the single known `bundle.contracts` difference
+/// (`KNOWN_EMPTY_CODE`), which is counted separately and is not a MISMATCH on its own.
+fn cmp_run(exp: &RunOutput, act: &RunOutput) -> Result<bool, String> {
     let diffs: Vec<String> = [
         cmp_outcomes(&exp.0, &act.0),
         cmp_state(&exp.1, &act.1),
@@ -463,7 +499,13 @@ fn cmp_run(exp: &RunOutput, act: &RunOutput) -> Result<(), String> {
     .into_iter()
     .filter_map(Result::err)
     .collect();
-    if diffs.is_empty() { Ok(()) } else { Err(diffs.join(" & ")) }
+    if diffs.is_empty() {
+        Ok(false)
+    } else if diffs.len() == 1 && diffs[0] == KNOWN_EMPTY_CODE {
+        Ok(true)
+    } else {
+        Err(diffs.join(" & "))
+    }
 }
 
 // ------------------------------------------------------------------------------------------------
@@ -782,7 +824,14 @@ fn gen_destroy(rng: &mut Rng) -> Case {
     let mut vaddr: Vec<Address> = Vec::new();
     for (vi, mode) in recreate.iter().enumerate() {
         let heir = if rng.chance(1, 2) { receiver() } else { fresh() };
-        let init = ctor_init(&[(0, 100 + vi as u8), (1, 7)], &counter(heir, 0x36));
+        // The constructor often leaves slot 0 unwritten: the recreated counter's SLOAD(0) must then
+        // observe the storage reset (0), not the slot value of the destroyed predecessor.
+        let writes: Vec<(u8, u8)> = match rng.below(3) {
+            0 => vec![(0, 100 + vi as u8), (1, 7)],
+            1 => vec![(1, 7)],
+            _ => vec![],
+        };
+        let init = ctor_init(&writes, &counter(heir, 0x36));
         let a = match mode {
             Recreate::No => addr(930_000 + vi as u64),
             Recreate::Factory => {
@@ -818,12 +867,16 @@ fn gen_destroy(rng: &mut Rng) -> Case {
             } else {
                 Pre::EmptyStorage
             }
-        } else if roll < 35 {
+        } else if roll < 30 {
             Pre::Sd
-        } else if roll < 70 {
+        } else if roll < 60 {
             Pre::Counter(if rng.chance(2, 3) { 0x36 } else { 0x34 })
-        } else {
+        } else if roll < 85 {
             Pre::Missing
+        } else {
+            // creation on top of an empty account that still carries storage in the base DB:
+            // only the creation itself resets the storage
+            Pre::EmptyStorage
         };
         let (heir, hname) = match rng.below(5) {
             0 => (receiver(), "R".to_owned()),
@@ -1418,6 +1471,10 @@ struct Stats {
     classes: BTreeMap<String, u64>,
     /// per run kind: cases where that run differed
     by_run: BTreeMap<&'static str, u64>,
+    /// runs that did not finish within the deadline (also counted in `mismatches`)
+    hangs: u64,
+    /// cases (verdict OK) whose only difference is the known `bundle.contracts` KECCAK_EMPTY entry
+    known_empty_code: u64,
 }
 
 fn status_name(s: AccountStatus) -> Option<&'static str> {
@@ -1458,9 +1515,9 @@ fn dump_run(label: &str, run: &RunOutput) {
     eprintln!("==== {label}: reverts {:?}", run.1.reverts);
 }
 
-fn cmp_and_dump(oracle: &RunOutput, out: &RunOutput, label: &str) -> Result<(), String> {
+fn cmp_and_dump(oracle: &RunOutput, out: &RunOutput, label: &str) -> Result<bool, String> {
     let r = cmp_run(oracle, out);
-    if r.is_err() && std::env::var_os("FLATBLOCK_DUMP").is_some() {
+    if !matches!(r, Ok(false)) && std::env::var_os("FLATBLOCK_DUMP").is_some() {
         dump_run(label, out);
     }
     r
@@ -1509,23 +1566,46 @@ fn run_case(case: &Case, delay_seeds: [u64; 2], stats: &mut Stats) -> String {
         delegated_safety: DelegatedSafetyConfig::disabled(),
     };
     let mut problems: Vec<String> = Vec::new();
-    for (r, seed) in delay_seeds.iter().enumerate() {
+    let mut known: Vec<String> = Vec::new();
+    let mut hung = false;
+    // (label, delay seed, force_sequential)
+    let runs = [
+        ("parallel run0".to_owned(), delay_seeds[0] | 1, false),
+        ("parallel run1".to_owned(), delay_seeds[1] | 1, false),
+        ("forced_sequential".to_owned(), 0, true),
+    ];
+    for (label, seed, force) in runs {
         stats.grevm_runs += 1;
-        let db = DelayDb::new(mem.clone(), hot.clone(), *seed | 1);
-        let res = run_grevm(db, cfg.clone(), env.clone(), txs.clone(), gcfg(false))
-            .and_then(|out| cmp_and_dump(&oracle, &out, &format!("parallel run{r}")));
-        if let Err(e) = res {
-            problems.push(format!("parallel run{r} delay_seed={} {e}", *seed | 1));
+        let db = DelayDb::new(mem.clone(), hot.clone(), seed);
+        let res = run_grevm(db, cfg.clone(), env.clone(), txs.clone(), gcfg(force))
+            .and_then(|out| cmp_and_dump(&oracle, &out, &label));
+        let tag = if force { label.clone() } else { format!("{label} delay_seed={seed}") };
+        match res {
+            Ok(false) => {}
+            Ok(true) => known.push(label.clone()),
+            Err(e) => {
+                hung = e.starts_with("[hang]");
+                problems.push(format!("{tag} {e}"));
+                if hung {
+                    // stuck scheduler threads keep spinning: no further run is meaningful
+                    break;
+                }
+            }
         }
     }
-    stats.grevm_runs += 1;
-    let db = DelayDb::new(mem.clone(), hot.clone(), 0);
-    let res = run_grevm(db, cfg.clone(), env.clone(), txs.clone(), gcfg(true))
-        .and_then(|out| cmp_and_dump(&oracle, &out, "forced_sequential"));
-    if let Err(e) = res {
-        problems.push(format!("forced_sequential {e}"));
+    if hung {
+        stats.hangs += 1;
     }
-    if problems.is_empty() { "OK".to_owned() } else { format!("MISMATCH {}", problems.join(" || ")) }
+    if !known.is_empty() {
+        stats.known_empty_code += 1;
+    }
+    if !problems.is_empty() {
+        format!("MISMATCH {}", problems.join(" || "))
+    } else if !known.is_empty() {
+        format!("OK known_difference contracts_empty_code_only_in_oracle({})", known.join(","))
+    } else {
+        "OK".to_owned()
+    }
 }
 
 fn real_main() -> Result<(), String> {
@@ -1628,14 +1708,20 @@ fn real_main() -> Result<(), String> {
         if only.is_some() {
             eprintln!("{line}");
         }
+        if stats.hangs > 0 {
+            // summary for the cases done so far; the process is terminated below
+            break;
+        }
     }
     let wall = started.elapsed().as_secs_f64();
     println!(
-        "{{\"kind\":\"{kind}\",\"seed\":{seed},\"cases\":{},\"mismatches\":{},\"mismatch_classes\":{},\"mismatch_runs\":{},\"specs\":{},\"features\":{},\"status_bundles\":{},\"txs\":{{\"total\":{},\"success\":{},\"revert\":{},\"halt\":{},\"skipped_invalid\":{}}},\"grevm_runs\":{},\"cases_file\":\"{}\",\"wall_seconds\":{:.3}}}",
+        "{{\"kind\":\"{kind}\",\"seed\":{seed},\"cases\":{},\"mismatches\":{},\"mismatch_classes\":{},\"mismatch_runs\":{},\"hangs\":{},\"contracts_empty_code_only_in_oracle\":{},\"specs\":{},\"features\":{},\"status_bundles\":{},\"txs\":{{\"total\":{},\"success\":{},\"revert\":{},\"halt\":{},\"skipped_invalid\":{}}},\"grevm_runs\":{},\"cases_file\":\"{}\",\"wall_seconds\":{:.3}}}",
         stats.cases,
         stats.mismatches,
         json_map(&stats.classes),
         json_map(&stats.by_run),
+        stats.hangs,
+        stats.known_empty_code,
         json_map(&stats.specs),
         json_map(&stats.feats),
         json_map(&stats.statuses),
@@ -1648,6 +1734,12 @@ fn real_main() -> Result<(), String> {
         path.display(),
         wall
     );
+    if stats.hangs > 0 {
+        // the stuck scheduler threads cannot be joined
+        out.flush().ok();
+        std::io::stdout().flush().ok();
+        std::process::exit(0);
+    }
     Ok(())
 }
 
